@@ -295,6 +295,31 @@ Theorem C09_getitem_data_third : forall (st : tstate) (k : key) (c : did),
 Proof. exact getitem_data. Qed.
 Print Assumptions C09_getitem_data_third.
 
+(* all stages at once: tree[key] is a function of the forest and the registry
+   alone — the clone index does not appear on the right-hand side *)
+Theorem C09_getitem_resolution : forall (st : tstate) (k : key),
+  state_wf st ->
+  getitem st k =
+    match k with
+    | KNode _ => Err EValue
+    | KNone => Err ENotImpl
+    | _ =>
+        match (match key_as_node_id k with Some z => reg_get z (t_reg st) | None => None end) with
+        | Some n => Ok n
+        | None =>
+            let by_data := match key_calc k with
+                           | Some c => classify (all_by_did (t_forest st) c)
+                           | None => Err ENotImpl
+                           end in
+            match key_as_did k with
+            | Some d => match all_by_did (t_forest st) d with [] => by_data | l => classify l end
+            | None => by_data
+            end
+        end
+    end.
+Proof. exact getitem_is_spec. Qed.
+Print Assumptions C09_getitem_resolution.
+
 (* the node that is returned is a node of the tree *)
 Theorem C09_getitem_in_tree : forall (st : tstate) (k : key) (n : nat),
   state_wf st -> getitem st k = Ok n -> In n (ids (t_forest st)).
